@@ -557,6 +557,12 @@ pub fn range_overlap_family() -> Vec<Spec> {
     out.push(Spec::single(vec![ret(cat(set(&[('a', 'c')]), ch('a'))), ret(cat(Re::Any, alt(ch('x'), ch('b')))), ret(ch('c'))], "range_overlap"));
     out.push(Spec::single(vec![ret(cat(set(&[('b', 'c')]), ch('a'))), ret(cat(Re::Any, opt(ch('x')))), ret(cat(ch('b'), ch('b')))], "range_overlap"));
     out.push(Spec::single(vec![ret(cat(set(&[('a', 'c')]), star(ch('x')))), ret(cat(set(&[('b', 'e')]), plus(ch('c'))))], "range_overlap"));
+    // a character and ranges leading to the same state, the character covered by another rule's range
+    out.push(Spec::single(vec![ret(cat(set(&[('b', 'b'), ('c', 'd'), ('x', 'x')]), ch('a'))), ret(cat(set(&[('a', 'c'), ('x', 'x')]), ch('b')))], "range_overlap"));
+    out.push(Spec::single(vec![ret(cat(set(&[('a', 'c'), ('x', 'x')]), ch('b'))), ret(cat(set(&[('b', 'b'), ('c', 'd'), ('x', 'x')]), ch('a')))], "range_overlap"));
+    // a character with its own continuation, inside a range with another, beside `_` with a third
+    out.push(Spec::single(vec![ret(cat(ch('b'), ch('x'))), ret(cat(set(&[('a', 'c')]), ch('a'))), ret(cat(Re::Any, ch('c')))], "range_overlap"));
+    out.push(Spec::single(vec![ret(alt(alt(cat(ch('b'), ch('x')), cat(set(&[('a', 'c')]), ch('a'))), cat(Re::Any, ch('c'))))], "range_overlap"));
     out
 }
 
@@ -596,6 +602,7 @@ pub fn builtin_rules_family() -> Vec<Spec> {
         Spec::single(vec![ret(plus(alt(b("control"), b("whitespace")))), ret(plus(b("ascii_punctuation"))), ret(ch('a'))], "builtin_rules"),
     ]
 }
+pub const LONG_KEYWORD: &str = "abcabcabcaabbccabcabcabcaabbccabcabcabcab";
 pub const TABLE_ALPHABET: [char; 8] = ['a', 'z', 'Z', '9', '_', '!', '.', '\u{10FFFF}'];
 
 /// Shapes that every end-to-end check explores under its own projection, whatever else it has:
@@ -610,6 +617,22 @@ pub fn shape_pool(q: bool) -> Vec<Spec> {
     v.extend(range_overlap_family().into_iter().step_by(if q { 3 } else { 1 }));
     v.extend(ctx_family(false).into_iter().filter(|s| s.family == "ctx_past" || s.family == "ctx_shared"));
     v.extend(eoi_family().into_iter().filter(|s| s.family == "eoi1").step_by(if q { 3 } else { 1 }));
+    // a lexeme longer than 32 characters matched by a non-looping regex
+    v.push(Spec::single(vec![ret(st(LONG_KEYWORD)), ret(plus(set(&[('a', 'c')]))), ret(ch('x'))], "long_keyword"));
+    // several right-context rules accepting the same lexeme in a state with successors
+    v.push(Spec::single(
+        vec![Rule { re: plus(ch('a')), ctx: Some(Re::Any), kind: Kind::Act(D_RETURN) }, Rule { re: plus(ch('a')), ctx: Some(ch('b')), kind: Kind::Act(D_RETURN) }, ret(plus(ch('a'))), ret(ch('b'))],
+        "ctx_prio",
+    ));
+    v.push(Spec::single(
+        vec![Rule { re: plus(set(&[('a', 'b')])), ctx: Some(ch('c')), kind: Kind::Act(D_CONTINUE) }, Rule { re: plus(set(&[('a', 'b')])), ctx: Some(set(&[('c', 'c'), ('x', 'x')])), kind: Kind::Act(D_RETURN) }, ret(set(&[('a', 'c')])), ret(ch('x'))],
+        "ctx_prio",
+    ));
+    // a right-context rule (continuing) whose lexeme ends in a state without successors, over a lower-priority rule
+    v.push(Spec::single(vec![Rule { re: ch('a'), ctx: Some(ch('b')), kind: Kind::Act(D_CONTINUE) }, ret(ch('a')), ret(ch('b'))], "ctx_prio"));
+    // `$` rules with a right context (which can never hold after the end of input)
+    v.push(Spec::single(vec![Rule { re: alt(ch('c'), Re::Eoi), ctx: Some(ch('a')), kind: Kind::Act(D_RETURN) }, ret(ch('a')), ret(ch('b'))], "eoi_ctx"));
+    v.push(Spec::single(vec![Rule { re: Re::Eoi, ctx: Some(ch('a')), kind: Kind::Act(D_RETURN) }, ret(plus(ch('a')))], "eoi_ctx"));
     // sizes: a 30-rule definition, deep nesting, many alternatives
     v.extend(stress_family().into_iter().filter(|s| s.family == "thirty"));
     v.push(Spec::single(vec![ret(plus(cat(star(alt(ch('a'), ch('b'))), ch('c')))), ret(ch('a')), ret(ch('x'))], "nested"));
@@ -625,7 +648,7 @@ pub fn shape_pool(q: bool) -> Vec<Spec> {
 /// The pool as two groups (letters a b c x; characters at the ends of table ranges).
 pub fn pool_groups(prop: &'static str, proj: Proj, q: bool, max_dev: usize) -> Vec<Group> {
     let mut p1 = plan(prop, proj, 5, max_dev);
-    p1.extra_inputs = vec!["abcabcabcabx".into(), "aaaaaaaaaaaaab".into(), "abababababababc".into(), "cbacbacbaxcba".into(), "abcbabcbabcbx".into(), "xxxxxxxxab".into()];
+    p1.extra_inputs = vec![LONG_KEYWORD.into(), format!("{}x{}", &LONG_KEYWORD[..33], LONG_KEYWORD), format!("{}c", LONG_KEYWORD), "abcabcabcabx".into(), "aaaaaaaaaaaaab".into(), "abababababababc".into(), "cbacbacbaxcba".into(), "abcbabcbabcbx".into(), "xxxxxxxxab".into()];
     let mut p2 = plan(prop, proj, if q { 3 } else { 4 }, 0);
     p2.alphabet = TABLE_ALPHABET.to_vec();
     p2.extra_inputs = vec!["az9_!".into(), "zZ.9\u{10FFFF}a".into(), "aZz99.9!".into()];
@@ -644,7 +667,16 @@ pub fn pool_groups(prop: &'static str, proj: Proj, q: bool, max_dev: usize) -> V
     let tables: Vec<Spec> = if q { builtin_rules_family().into_iter().enumerate().filter(|(i, _)| [0usize, 2, 3].contains(i)).map(|(_, s)| s).collect() } else { builtin_rules_family() };
     let mut tables = tables;
     tables.extend(thresholds);
-    vec![Group { plan: p1, specs: shape_pool(q) }, Group { plan: p2, specs: tables }]
+    // the same shapes over multi-byte characters (strings and sets are sequences of characters)
+    let mut p3 = plan(prop, proj, if q { 4 } else { 5 }, 0);
+    p3.alphabet = BETA2.to_vec();
+    let bound: Vec<Spec> = shape_pool(q)
+        .into_iter()
+        .filter(|s| s.lets.is_empty() && s.family != "long_keyword" && s.family != "thirty")
+        .step_by(if q { 3 } else { 1 })
+        .map(|s| Spec { sets: s.sets.iter().map(|set| RuleSet { lets: vec![], rules: set.rules.iter().map(|r| Rule { re: bind(&r.re, &BETA2), ctx: r.ctx.as_ref().map(|c| bind(c, &BETA2)), kind: r.kind }).collect() }).collect(), family: "pool_bound", ..s.clone() })
+        .collect();
+    vec![Group { plan: p1, specs: shape_pool(q) }, Group { plan: p2, specs: tables }, Group { plan: p3, specs: bound }]
 }
 
 fn with<F: FnOnce(&mut Plan)>(mut p: Plan, f: F) -> Plan {
@@ -658,10 +690,16 @@ pub fn groups(prop: &str, tier: &str) -> Vec<Group> {
     let mut g = groups_core(prop, tier);
     let q = tier != "thorough";
     let pooled: Option<(&'static str, Proj, usize)> = match prop {
-        "C01" => Some(("C01", Proj::Tokens, 0)),
+        "C01" => {
+            g.push(Group { plan: plan("C01", Proj::Tokens, if q { 4 } else { 5 }, 1), specs: groups_core("C03", tier).remove(0).specs.into_iter().step_by(if q { 3 } else { 1 }).collect() });
+            Some(("C01", Proj::Tokens, 0))
+        }
         "C05" => Some(("C05", Proj::Full, 1)),
         "C06" => Some(("C06", Proj::Locs, 0)),
-        "C07" => Some(("C07", Proj::Errors, 0)),
+        "C07" => {
+            g.push(Group { plan: plan("C07", Proj::Errors, if q { 4 } else { 5 }, 1), specs: groups_core("C03", tier).remove(0).specs.into_iter().step_by(if q { 3 } else { 1 }).collect() });
+            Some(("C07", Proj::Errors, 0))
+        }
         "C08" => Some(("C08", Proj::Recovery, 0)),
         "C09" => Some(("C09", Proj::Progress, 0)),
         "C10" => Some(("C10", Proj::Full, 1)),
@@ -958,6 +996,11 @@ fn groups_core(prop: &str, tier: &str) -> Vec<Group> {
             specs.push(multi(&["ascii_digit", "numeric", "alphanumeric", "XID_Continue"]));
             specs.push(multi(&["uppercase", "XID_Start", "whitespace", "control"]));
             specs.push(multi(&["ascii_hexdigit", "ascii_alphabetic", "ascii_graphic", "ascii", "alphabetic"]));
+            // a union inside a difference, in both orders
+            for (a, b2) in [("alphabetic", "numeric"), ("numeric", "alphabetic"), ("uppercase", "ascii_digit"), ("XID_Start", "numeric")] {
+                specs.push(simple(cat(diff(alt(builtin(a), builtin(b2)), set(&[('a', 'z')])), ch('x'))));
+                specs.push(simple(diff(alt(builtin(a), builtin(b2)), builtin("ascii_alphanumeric"))));
+            }
             // chains of `#` (left-associative)
             specs.push(simple(diff(diff(builtin("alphanumeric"), builtin("alphabetic")), builtin("ascii_digit"))));
             specs.push(simple(cat(diff(diff(builtin("alphabetic"), builtin("lowercase")), builtin("uppercase")), ch('x'))));
@@ -1018,6 +1061,18 @@ fn groups_core(prop: &str, tier: &str) -> Vec<Group> {
                 let mut s3 = Spec::single(vec![ret(cat(diff(var("v"), var("w")), ch('x'))), ret(set(&[('a', 'g')]))], "let_class");
                 s3.lets = lets(&[("v", l.clone()), ("w", r.clone())]);
                 specs.push(s3);
+            }
+            {
+                let nested = set(&[('a', 'g'), ('c', 'c'), ('b', 'b')]);
+                let mut s1 = Spec::single(vec![ret(plus(diff(var("v"), ch('x')))), ret(ch('x'))], "let_class");
+                s1.lets = lets(&[("v", nested.clone())]);
+                specs.push(s1);
+                specs.push(Spec::single(vec![ret(plus(diff(nested.clone(), ch('x')))), ret(ch('x'))], "let_class"));
+                let tri = alt(alt(cat(ch('b'), ch('x')), cat(set(&[('a', 'c')]), ch('a'))), cat(Re::Any, ch('c')));
+                specs.push(Spec::single(vec![ret(tri.clone())], "let_class"));
+                let mut s2 = Spec::single(vec![ret(alt(alt(var("p"), var("q")), var("r")))], "let_class");
+                s2.lets = lets(&[("p", cat(ch('b'), ch('x'))), ("q", cat(set(&[('a', 'c')]), ch('a'))), ("r", cat(Re::Any, ch('c')))]);
+                specs.push(s2);
             }
             // a let that refers to an earlier let; variables in right contexts
             let mut s = Spec::single(vec![ret(cat(var("w"), ch('c'))), Rule { re: var("d"), ctx: Some(var("w")), kind: Kind::Act(D_RETURN) }, ret(set(&[('a', 'c')]))], "let_chain");
@@ -1083,6 +1138,12 @@ fn groups_core(prop: &str, tier: &str) -> Vec<Group> {
                 diff(d('\u{0}', '\u{10}'), alt(ch('\u{0}'), d('\u{5}', '\u{10}'))),
                 alt(diff(Re::Any, d('\u{1}', '\u{10FFFE}')), ch('m')),
             ];
+            // a class of characters and more than MAX_GUARD_SIZE ranges in front of a further state
+            specs.push(Spec::single(vec![rule(cat(alt(alt(builtin("alphabetic"), ch('_')), ch('$')), ch('x')), Kind::Simple)], "class_then"));
+            specs.push(Spec::single(
+                vec![rule(cat(set(&[('0', '9'), ('a', 'b'), ('d', 'e'), ('g', 'h'), ('j', 'k'), ('m', 'n'), ('p', 'q'), ('s', 't'), ('v', 'w'), ('y', 'z'), ('_', '_'), ('.', '.'), ('A', 'A')]), ch('x')), Kind::Simple)],
+                "class_then",
+            ));
             for c in classes {
                 specs.push(Spec::single(vec![rule(c.clone(), Kind::Simple)], "class"));
                 specs.push(Spec::single(vec![rule(cat(c.clone(), ch('x')), Kind::Simple)], "class_then"));
@@ -1093,7 +1154,15 @@ fn groups_core(prop: &str, tier: &str) -> Vec<Group> {
             let mut p = plan("C11", Proj::ClassSweep, 0, 0);
             p.check_probe_neutral = false;
             p.sweep_all = !q;
-            vec![Group { plan: p, specs }]
+            // contexts whose alternatives are overlapping classes (not a single class: explored on strings)
+            let ctxs = vec![
+                Spec::single(vec![Rule { re: ch('a'), ctx: Some(alt(set(&[('b', 'b'), ('e', 'e')]), cat(set(&[('a', 'f')]), ch('x')))), kind: Kind::Act(D_RETURN) }, ret(Re::Any)], "class_ctx_alt"),
+                Spec::single(vec![Rule { re: ch('a'), ctx: Some(alt(ch('e'), cat(diff(set(&[('a', 'z')]), set(&[('g', 'z')])), ch('x')))), kind: Kind::Act(D_RETURN) }, ret(Re::Any)], "class_ctx_alt"),
+                Spec::single(vec![Rule { re: ch('a'), ctx: Some(alt(cat(diff(Re::Any, ch('b')), ch('x')), set(&[('a', 'b')]))), kind: Kind::Act(D_RETURN) }, ret(Re::Any)], "class_ctx_alt"),
+            ];
+            let mut pc = plan("C11", Proj::Full, 4, 0);
+            pc.alphabet = vec!['a', 'b', 'e', 'x'];
+            vec![Group { plan: p, specs }, Group { plan: pc, specs: ctxs }]
         }
         _ => vec![],
     }
@@ -1261,6 +1330,7 @@ pub fn p_family(name: &str) -> Option<PFamily> {
                 set(&[('a', 'a'), ('c', 'c'), ('e', 'e')]),
                 set(&[('a', 'c'), ('e', 'g')]),
                 set(&[('a', 'g')]),
+                set(&[('a', 'g'), ('c', 'd'), ('b', 'b')]),
                 Re::Any,
             ];
             let mut classes = atoms.clone();
@@ -1269,6 +1339,7 @@ pub fn p_family(name: &str) -> Option<PFamily> {
                     classes.push(diff(a.clone(), b.clone()));
                     classes.push(alt(a.clone(), b.clone()));
                     classes.push(diff(diff(atoms[6].clone(), a.clone()), b.clone()));
+                    classes.push(diff(alt(a.clone(), b.clone()), atoms[2].clone()));
                 }
             }
             let env = Env::new();
